@@ -393,7 +393,7 @@ func init() {
 		ID: "C10", Level: "fault_enumeration",
 		Run:   RunC10,
 		Check: CheckC10,
-		Quick: 96, Thorough: 6000,
+		Quick: 160, Thorough: 12000,
 		Rule: "per generated stream (junk, one goroutine dump or race report, junk): EVERY byte offset k in [0,len] as the cut x {EOF, injected error} x {alone, together with the last data} x {one-shot, one seeded chunking with zero/short reads before the cut}, plus the resume loop over the cut stream at every 7th offset; one evaluation = one cut run compared with the uncut scan of the same stream; distinct_nontrivial = distinct (stream, offset, kind, with-data, delivery) tuples on streams containing a dump; the offset dimension is exhaustive per stream, the stream dimension is sampled",
 		Assumptions: []string{
 			"streams are bounded (about 0.2-6 KiB) and drawn from the generators",
